@@ -34,10 +34,12 @@
      tree is unchanged), then every ancestor NAMED IN THE PATH that is empty by then, nearest first, stopping at the
      first one that is not.  Nothing else changes: in particular without `recursive` no file is ever removed, and a
      directory that still contains anything outside p's sub-tree is never removed.
-   * time(p): follows links; fails when nothing is there; writeTime / accessTime of a file are the times set on it (ms);
-     for every kind the three reported times equal what stat() reports (observed by the driver: d?t = 0).
-   * isExecutable(p): follows links; false when nothing is there or no execute bit is set, true when all are; with
-     only some execute bits set, and for directories, the documentation does not say: left open.
+   * time(p): fails when nothing is there; writeTime / accessTime of a file are the times set on it (ms); for every kind
+     the three reported times equal what stat() reports (observed by the driver: d?t = 0).  For a symbolic link the
+     times of the link itself (lstat, l?t = 0) are accepted as well -- not documented, and the two branches of the
+     library differ; for the same reason time() of a dangling link may fail or succeed.
+   * isExecutable(p): false when nothing is there or no execute bit is set, true when all are; with only some execute
+     bits set, for directories and for dangling links the documentation does not say: left open.
    * getAbsolutePath(q) in working directory c: an absolute path lexically equivalent to q (absolute q) or to c/q.
    * fsmode(u): u = 1 makes the file system one that does not report entry types in readdir (d_type = DT_UNKNOWN, which
      readdir(3) allows on any file system and requires every application to handle; the driver simulates it by
@@ -157,16 +159,20 @@ PurgeF(s, p, rec) ==
   ELSE Out(PurgeUp(Without(s.tree, {p} \cup Below(s.tree, p)), Parent(p)), s.h, 1)
 
 \* --- stat-like queries (follow links) -----------------------------------------------------------------------------
+\* Whether time() / isExecutable() look at a symbolic link itself or at what it points to is not documented (the POSIX
+\* branch follows it, the Win32 branch of time() reports the link): both are accepted, see TimeOK.
 TimeF(s, p) ==
   LET t == Kind(s.tree, p) IN
-  IF t \in {"none", "linkX"} THEN Fail(s)
-  ELSE IF t = "file" THEN [Out(s.tree, s.h, 1) EXCEPT !.wt = s.tree[p].mt, !.at = s.tree[p].at]
-  ELSE IF t = "linkF" THEN [Out(s.tree, s.h, 1) EXCEPT !.wt = OutFileN.mt, !.at = OutFileN.at]
-  ELSE Out(s.tree, s.h, 1)
+  IF t = "none" THEN {Fail(s)}
+  ELSE IF t = "linkX" THEN {Fail(s), Out(s.tree, s.h, 1)}
+  ELSE IF t = "file" THEN {[Out(s.tree, s.h, 1) EXCEPT !.wt = s.tree[p].mt, !.at = s.tree[p].at]}
+  ELSE IF t = "linkF" THEN {[Out(s.tree, s.h, 1) EXCEPT !.wt = OutFileN.mt, !.at = OutFileN.at]}
+  ELSE {Out(s.tree, s.h, 1)}
 ExeOf(x) == IF x = 0 THEN {0} ELSE IF x = 7 THEN {1} ELSE {0, 1}
 IsExeF(s, p) ==
   LET t == Kind(s.tree, p)
-      rs == IF t \in {"none", "linkX"} THEN {0}
+      rs == IF t = "none" THEN {0}
+            ELSE IF t = "linkX" THEN {0, 1}
             ELSE IF t = "file" THEN ExeOf(s.tree[p].x)
             ELSE IF t = "linkF" THEN ExeOf(OutFileN.x)
             ELSE {0, 1}
@@ -188,7 +194,7 @@ Step0(op, s, p, q, k, m) ==
     [] op = "dread"   -> DReadF(s)
     [] op = "dclose"  -> {DCloseF(s)}
     [] op = "purge"   -> {PurgeF(s, p, k = 1)}
-    [] op = "time"    -> {TimeF(s, p)}
+    [] op = "time"    -> TimeF(s, p)
     [] op = "isexe"   -> IsExeF(s, p)
     [] op = "abspath" -> {AbsPathF(s)}
 \* u = 1: the file system does not report entry types (readdir returns d_type = DT_UNKNOWN, which POSIX / Linux allow
@@ -214,14 +220,26 @@ ListOK(o, obs) == /\ \A i, j \in 1..Len(obs.ents) : i # j => obs.ents[i].n # obs
                   /\ EntSet(obs.ents) \subseteq (o.req \cup o.opt)
 AbsOK(obs) == /\ IsAbs(obs.res)
               /\ NormC(obs.res) = NormC(IF IsAbs(obs.q) THEN obs.q ELSE obs.root \o JoinPath(obs.p, 1) \o <<SLASH>> \o obs.q)
+\* the tree observed is the tree expected; the times a successful set-up step mkfile leaves on its file are taken from
+\* the observation (a file system may store them with a coarser granularity than the driver asked for)
+TreeOK(o, obs) ==
+  LET t == TreeOf(obs.tree) IN
+  IF obs.op = "mkfile" /\ o.r = 1
+  THEN /\ DOMAIN t = DOMAIN o.tree /\ \A y \in DOMAIN t \ {obs.p} : t[y] = o.tree[y]
+       /\ t[obs.p].t = "file" /\ t[obs.p].x = o.tree[obs.p].x
+  ELSE t = o.tree
+Concrete(o, obs) == [tree |-> TreeOf(obs.tree), h |-> o.h, u |-> o.u]      \* the abstract state after a matched observation
+\* d?t = reported time - what stat() says (follows links), l?t = reported time - what lstat() says (the link itself)
+TimeOK(o, obs) ==
+  \/ /\ obs.dwt = 0 /\ obs.dat = 0 /\ obs.dct = 0 /\ o.wt \in {-1, obs.wt} /\ o.at \in {-1, obs.at}
+  \/ /\ IsLink(Kind(o.tree, obs.p)) /\ obs.lwt = 0 /\ obs.lat = 0 /\ obs.lct = 0
 Match(o, obs) ==
   /\ o.r = obs.r /\ o.u = obs.u
-  /\ TreeOf(obs.tree) = o.tree
+  /\ TreeOK(o, obs)
   /\ obs.outsame
   /\ obs.op = "list" => (IF o.r = 1 THEN ListOK(o, obs) ELSE obs.ents = <<>>)
   /\ obs.op = "dread" => (IF o.r = 1 THEN EntSet(obs.ents) = {o.ent} /\ Len(obs.ents) = 1 ELSE obs.ents = <<>>)
-  /\ (obs.op = "time" /\ o.r = 1) => /\ o.wt \in {-1, obs.wt} /\ o.at \in {-1, obs.at}
-                                     /\ obs.dwt = 0 /\ obs.dat = 0 /\ obs.dct = 0
+  /\ (obs.op = "time" /\ o.r = 1) => TimeOK(o, obs)
   /\ obs.op = "abspath" => AbsOK(obs)
 Init0 == [tree |-> EmptyTree, h |-> Closed, u |-> 0]
 
